@@ -104,6 +104,12 @@ func (e *Env) Operand(epoch int, tok string, strict bool) int {
 	if n, err := strconv.ParseInt(tok, 0, 64); err == nil {
 		return int(n)
 	}
+	switch tok {
+	case "TRUE": // the decomp's constants
+		return 1
+	case "FALSE":
+		return 0
+	}
 	// symbolic constant: fixed for the whole run
 	d := e.Dom
 	if d < 2 {
